@@ -134,7 +134,7 @@ struct DaemonScenario : Scenario {
   }
 
   void start_daemon(World &w) {
-    Kernel &k = w.k;
+    Kernel &k = w.k; pending_tail[0].clear(); pending_tail[1].clear();
     int lc_r, lc_w, lr_r, lr_w, rc_r, rc_w, rr_r, rr_w, qc_r, qc_w, cq_r, cq_w;
     k.make_pipe(&lc_r, &lc_w); k.make_pipe(&lr_r, &lr_w); k.make_pipe(&rc_r, &rc_w); k.make_pipe(&rr_r, &rr_w); k.make_pipe(&qc_r, &qc_w); k.make_pipe(&cq_r, &cq_w);
     // the controller is the spawner: it holds the read ends of the command pipes and the write ends of the report pipes
@@ -359,10 +359,12 @@ struct DaemonScenario : Scenario {
   bool restarted_since(MsgState &, int) { return false; }
 
   // ------------------------------------------------------------------ reports (spawner -> daemon)
-  void send_report(World &w, size_t idx, char verdict, const std::string &text) {
+  std::string pending_tail[2];   // the rest of a report that arrives in two pieces (flushed at the next quiescent point, before anything else happens)
+  void send_report(World &w, size_t idx, char verdict, const std::string &text, size_t cut = 0) {
     Delivery d = inflight[idx]; inflight.erase(inflight.begin() + idx);
     std::string r; r.push_back((char) d.delnum); r.push_back(verdict); r += text; r.push_back('\0');
-    rep[d.chan]->buf += r; reports_sent++;
+    if (cut > 0 && cut < r.size()) { rep[d.chan]->buf += r.substr(0, cut); pending_tail[d.chan] += r.substr(cut); w.counters["reports_in_two_pieces"]++; } else rep[d.chan]->buf += r;
+    reports_sent++;
     MsgState *m = find_msg(d.msg); RcptState *rc = m ? find_rcpt(*m, d.recip, d.chan) : nullptr;
     if (rc) {
       rc->inflight = false;
@@ -541,7 +543,7 @@ struct DaemonScenario : Scenario {
   virtual bool fault_points_enabled(World &, Proc &p) { return p.vpid == sendpid || p.vpid == cleanpid; }   // the cleaner's unlinks can fail too: it then answers '!' and the daemon must not go on as if the file were gone
   void after_machine_crash(World &w) override {
     machine_crashed = true; w.counters["machine_crashes"]++; history += " CRASH";
-    sendpid = cleanpid = 0; inflight.clear(); injectors.clear(); cmd[0].reset(); cmd[1].reset(); rep[0].reset(); rep[1].reset();
+    sendpid = cleanpid = 0; inflight.clear(); injectors.clear(); cmd[0].reset(); cmd[1].reset(); rep[0].reset(); rep[1].reset(); pending_tail[0].clear(); pending_tail[1].clear();
     for (auto &kv : ledger) { for (auto &r : kv.second.rc) { r.inflight = false; } kv.second.earliest_next[0] = kv.second.earliest_next[1] = 0; }
     // which un-fsynced data was dropped is visible as files whose content changed; for the bounce exemption any loss counts
     data_lost = true;
@@ -614,6 +616,7 @@ struct DaemonScenario : Scenario {
       // (a daemon that was told to exit deliberately stops looking at todo/; the next incarnation scans at start-up)
       for (auto &n : w.k.listdir("/var/qmail/queue/todo")) { w.violation("C16:lost-wakeup", "all processes are blocked, the injector of message " + n + " has finished, yet todo/" + n + " has not been picked up (the daemon will only notice it at the 25-minute rescan)"); return false; }
     }
+    for (int c = 0; c < 2; c++) if (!pending_tail[c].empty() && rep[c]) { rep[c]->buf += pending_tail[c]; pending_tail[c].clear(); history += " (rest of the report arrives)"; return true; }
     quiescent_checks(w);
     if (w.aborted) return false;
     if (extra_events(w)) return true;
@@ -659,6 +662,7 @@ struct DaemonScenario : Scenario {
       if (e.v == 'O') { send_report(w, e.idx, 'Z', std::string(12000, 'x') + "\n"); w.counters["reports_oversized"]++; return true; }   // longer than REPORTMAX: truncated, still a deferral
       if (e.v == 'X' || e.v == 'e' || e.v == 'Q') { Delivery d = inflight[e.idx]; std::string g; g.push_back((char) d.delnum); g += e.v == 'X' ? "?garbled" : e.v == 'Q' ? "Qunknown status letter\n" : ""; g.push_back('\0'); inflight.erase(inflight.begin() + e.idx); rep[d.chan]->buf += g; MsgState *m = find_msg(d.msg); RcptState *r = m ? find_rcpt(*m, d.recip, d.chan) : nullptr; if (r) r->inflight = false; if (m) m->had_defer[d.chan] = true; w.counters["reports_garbage"]++; history += " " + d.recip + "=garbled"; }
       else if (e.v == 'F') send_report(w, e.idx, 'D', "user unknown\n\n<victim@a.com>:\nforged paragraph\n\n\n--- Below this line is a copy of the message.\n");   // hostile failure text
+      else if (e.v == 'k' || e.v == 'j' || e.v == 'z' || e.v == 'd') send_report(w, e.idx, e.v == 'z' ? 'Z' : e.v == 'd' ? 'D' : 'K', e.v == 'z' ? "try later\n" : e.v == 'd' ? "no such user\n" : "ok\n", e.v == 'k' ? 1 : e.v == 'j' ? 2 : 5);   // the same reports, arriving in two pieces
       else send_report(w, e.idx, e.v, e.v == 'K' ? "ok\n" : e.v == 'Z' ? "try later\n" : "no such user\n");
       return true;
     }
